@@ -215,6 +215,12 @@ impl OpsWorld {
                     _ => ("err".into(), String::new()),
                 }
             }
+            "op.upgrade_migrate" => {
+                let ops = self.ops.clone().unwrap();
+                let r = upgrade_migrate(&env, &ops, t[1]);
+                let _ = self.events();
+                r
+            }
             "op.owner" => match guarded(|| self.client().try_owner()) {
                 Ok(Ok(Ok(a))) => (format!("ok {}", Addr::from_sdk(&a).tok()), String::new()),
                 _ => ("err".into(), String::new()),
@@ -234,7 +240,34 @@ impl OpsWorld {
     }
 }
 
+/// the target of an execution EQUAL to the operator named in it: a contract that is an operator calls itself through the
+/// operators contract (only a blanket authorisation can stand for a live contract in the test host), and an ordinary member names
+/// its own (code-less) address as target
+fn operator_is_target(run: &mut crate::Run) {
+    let ops = Addr::c(160);
+    let probe = Addr::c(161);
+    let owner0 = Addr::c(1);
+    let member = Addr::c(10);
+    run.scenario("op", "c17-operator-is-target");
+    run.op("time 1000 10", "time");
+    run.op(&format!("op.new {} {} {}", ops.tok(), owner0.tok(), probe.tok()), "construct");
+    run.op(&format!("op.execute {} {} echo [u5] *", probe.tok(), probe.tok()), "execute-never-target-is-operator-everyone");
+    run.op(&format!("op.add {} {}", probe.tok(), owner0.tok()), "add-live-contract");
+    run.op(&format!("op.add {} {}", member.tok(), owner0.tok()), "add-fresh-right");
+    run.op(&format!("op.is_operator {}", probe.tok()), "q");
+    for (func, args) in [("echo", "[u5]"), ("sum", "[u1;u2]"), ("noop", "[]"), ("boom", "[u1]")] {
+        run.op(&format!("op.execute {} {} {func} {args} *", probe.tok(), probe.tok()), "execute-member-target-is-operator-everyone");
+        run.op("probe.count", "q");
+        run.op("probe.last", "q");
+        run.op(&format!("op.execute {} {} {func} {args} -", probe.tok(), probe.tok()), "execute-member-target-is-operator-nobody");
+        run.op(&format!("op.execute {} {} {func} {args} {}", member.tok(), probe.tok(), member.tok()), "execute-member-right");
+        run.op("probe.count", "q");
+        run.op(&format!("op.execute {} {} {func} {args} {}", member.tok(), member.tok(), member.tok()), "execute-member-target-is-operator-no-contract");
+    }
+}
+
 pub fn gen_c17(run: &mut crate::Run, seed: u64, thorough: bool) {
+    operator_is_target(run);
     let mut rng = Rng::new(seed);
     let histories = if thorough { 300 } else { 40 };
     let len = if thorough { 30 } else { 26 };
